@@ -18,6 +18,8 @@ from __future__ import annotations
 import json
 import os
 import random
+import shutil
+import tempfile
 from concurrent.futures import ProcessPoolExecutor
 
 from . import common as C
@@ -27,6 +29,12 @@ PROP = "C05"
 PROPS_MODULES = ["AsyncFix.Props.C05"]
 FINDINGS_MODULE = "AsyncFix.Findings.C05"
 ASSUMPTIONS = [
+    "multiplicity and configuration (several sessions in one Journaler, file vs in-memory journal, a protocol class other "
+    "than FIXProtocol44, restart = a new connection object / Journaler over the same journal) lie outside the Session "
+    "model (one abstract journal per connection; `Conn.create` is the constructor): they are covered by the lock-step "
+    "correspondence (a restart is compared with Conn.create over the journal left behind; the real journal is shared) and "
+    "by the oracle clauses C05-restart-counter / C05-other-session-touched; that journal calls leave other sessions "
+    "alone is the C13 theorem journal_calls_leave_other_sessions",
     "frames are abstract field lists (the frame <-> bytes relation is C01/C02); no repeating groups in session traffic",
     "application hooks return normally and do not call back into the connection (concurrent senders are C14); "
     "should_replay is a pure function of the journal row",
@@ -119,7 +127,7 @@ def send_matrix(k):
     """the (kind x text x odd tags) matrix, three odd-tag combinations per cell, cycling with k"""
     for kind in BASE_KINDS:
         for text in TEXTS:
-            for j in range(3):
+            for j in range(2):
                 yield compose(kind, text, ODD_TAGS[(k + 3 * j + len(kind[0])) % len(ODD_TAGS)])
 
 
@@ -189,6 +197,147 @@ def single_step_slice(rng):
 
 COUNTERS = [(1, 1), (1, 1), (3, 6), (9, 4), (40, 41), (2**32 + 1, 2**32 + 7), (5, 2**40), (2**33, 3)]
 
+# ------------------------------------------------------------------------------------------------
+# configuration / multiplicity: what the journal is (memory | file), which protocol class the connection
+# gets (FIXProtocol44 | a bare FIXProtocolBase subclass), whether the journal is SHARED with other sessions
+# whose rows and counters lie below, around and far ahead of ours, and whether the history contains
+# restarts (a new connection object - for a file journal also a new Journaler - over the same journal)
+# ------------------------------------------------------------------------------------------------
+CONFIGS = [
+    {"journal": "memory", "proto": "fix44", "others": False, "restart": False},   # the classic set-up
+    {"journal": "memory", "proto": "fix44", "others": True, "restart": True},
+    {"journal": "file", "proto": "fix44", "others": True, "restart": True},
+    {"journal": "memory", "proto": "custom", "others": True, "restart": True},
+    {"journal": "file", "proto": "custom", "others": False, "restart": True},
+]
+CLASSIC = CONFIGS[0]
+_PROTO = {}
+
+
+def proto_of(cfg):
+    from asyncfix.protocol import FIXProtocol44, FIXProtocolBase
+
+    if cfg["proto"] == "fix44":
+        return FIXProtocol44()
+    if "custom" not in _PROTO:
+        # what a user-defined protocol looks like: only the BeginString is set, everything else inherited
+        _PROTO["custom"] = type("CustomProtocol", (FIXProtocolBase,), {"beginstring": "FIX.4.4"})
+    return _PROTO["custom"]()
+
+
+class Rig:
+    """an Impl configured per `cfg` (own temp dir for a file journal)"""
+
+    def __init__(self, cfg):
+        from asyncfix.journaler import Journaler
+
+        self.cfg = cfg
+        self.impl = S.Impl()
+        self.dir = None
+        self.other_keys = None
+        if cfg["journal"] == "file":
+            self.dir = tempfile.mkdtemp(prefix="c05-", dir="/dev/shm" if os.path.isdir("/dev/shm") else None)
+            self.path = os.path.join(self.dir, "journal.db")
+            self.impl.journal = Journaler(self.path)
+        if cfg["journal"] == "file" or cfg["proto"] != "fix44":
+            self._new_conn("S", "T", 30, None)
+            self.impl.key = self.impl.conn._session.key
+
+    def _new_conn(self, sender, target, hb, role):
+        impl = self.impl
+        conn = impl.Conn(proto_of(self.cfg), sender, target, impl.journal, "h", 1, hb, logger=impl.log)
+        if role is not None:
+            conn._connection_role = role   # the client / server subclass constructors fix the role
+        impl.conn = conn
+        return conn
+
+    def others(self):
+        """two more sessions in the same journal: a foreign CompID pair, and one sharing our SenderCompID"""
+        if self.other_keys is None:
+            j = self.impl.journal
+            self.other_keys = [j.create_or_load("T2", "S2").key, j.create_or_load("OTHER", "SHARED").key]
+            assert self.impl.key not in self.other_keys
+        return self.other_keys
+
+    def activate(self):
+        """every S.Impl() patches the clock of asyncfix.connection / Codec globally to ITS OWN now_ms; with
+        several rigs alive the patch must point to the one in use"""
+        import types
+
+        impl = self.impl
+        impl.cm.time = types.SimpleNamespace(time=lambda: impl.now_ms / 1000)
+        impl.Codec.current_datetime = staticmethod(lambda: S.stamp(impl.now_ms))
+
+    def load(self, start):
+        """impl.load + (shared journal) rows and counters of the other sessions: below, at, just above and
+        far ahead of our counter"""
+        impl = self.impl
+        self.activate()
+        impl.load(start)
+        if self.cfg["others"]:
+            k2, k3 = self.others()
+            no = start.next_out
+            cur = impl.journal.cursor
+            rows = []
+            for n in sorted({max(1, no - 2), no, no + 1, no + 40, 2**35 + 11}):
+                rows.append((n, k2, 1, S.fields_to_bytes(S.row("S2", "T2", "D", ((11, f"f{n}"),), n)[1][1])))
+            for n in sorted({1, no + 3}):
+                rows.append((n, k3, 1, S.fields_to_bytes(S.row("SHARED", "OTHER", "D", ((11, f"g{n}"),), n)[1][1])))
+                rows.append((n, k3, 0, S.fields_to_bytes(S.row("OTHER", "SHARED", "D", ((11, f"h{n}"),), n)[1][1])))
+            cur.executemany("INSERT INTO message VALUES(?, ?, ?, ?)", rows)
+            cur.execute("UPDATE session SET outboundSeqNo=?, inboundSeqNo=? WHERE sessionId=?", (2**35 + 11, 5, k2))
+            cur.execute("UPDATE session SET outboundSeqNo=?, inboundSeqNo=? WHERE sessionId=?", (no + 3, no + 3, k3))
+            impl.journal.conn.commit()
+
+    def snapshot_others(self):
+        if not self.cfg["others"]:
+            return None
+        cur = self.impl.journal.cursor
+        cur.execute("SELECT session, direction, seqNo, msg FROM message WHERE session != ? "
+                    "ORDER BY session, direction, seqNo", (self.impl.key,))
+        msgs = [tuple(r) for r in cur]
+        cur.execute("SELECT sessionId, targetCompId, senderCompId, outboundSeqNo, inboundSeqNo FROM session "
+                    "WHERE sessionId != ? ORDER BY sessionId", (self.impl.key,))
+        return msgs, [tuple(r) for r in cur]
+
+    def restart(self):
+        """what a process restart does to the session: the connection object is dropped, a new one is built
+        over the same journal (file journal: a new Journaler on the same file), i.e. create_or_load again"""
+        from asyncfix.journaler import Journaler
+
+        impl = self.impl
+        old = impl.conn
+        sess = old._session
+        if self.cfg["journal"] == "file":
+            impl.journal.conn.commit()
+            impl.journal = Journaler(self.path)
+        conn = self._new_conn(sess.sender_comp_id, sess.target_comp_id, old._heartbeat_period, old._connection_role)
+        assert conn._session.key == impl.key, (conn._session.key, impl.key)
+
+    def apply(self, sr, ev):
+        del self.impl.eff[:]
+        if ev[0] == "restart":
+            self.restart()
+        else:
+            self.impl.apply(sr, ev)
+
+    def close(self):
+        self.impl.close()
+        if self.dir:
+            shutil.rmtree(self.dir, ignore_errors=True)
+
+
+def created_tokens(before: str) -> str:
+    """the connection `Conn.create` gives over the journal of `before` (model: SessionTypes.lean `Conn.create`):
+    counters = stored + 1, DISCONNECTED_NOCONN_TODAY, no transport, watchdog fields cleared; role and
+    heartbeat period are constructor arguments"""
+    a = S.parse_conn_tokens(before)
+    b = S.AbsConn(state=1, role=a.role, was_active=False, sender=a.sender, target=a.target,
+                  next_in=a.stored_in + 1, next_out=a.stored_out + 1, max_resend=0, test_req_id=None, last_time=0,
+                  hb=a.hb, sock=False, stored_out=a.stored_out, stored_in=a.stored_in,
+                  out_rows=a.out_rows, in_rows=a.in_rows)
+    return b.tokens()
+
 
 def fresh(rng):
     role = rng.choice([1, 1, 2])
@@ -224,10 +373,12 @@ def app_send(rng, a, own):
     return ("send", None, (mt, subst(tags, a))), "send:" + lab
 
 
-def gen_event(rng, a, now, own=True, d9=True):
+def gen_event(rng, a, now, own=True, d9=True, restart=False):
     """one event for abstract state `a`; returns (sr, event, label)"""
     sr = rng.choice(["all", "all", "all", "none", f"d{max(1, a.next_out - 2)}", f"d{max(1, a.next_out - 1)}"])
     ni, no = a.next_in, a.next_out
+    if restart and rng.random() < (0.12 if a.state <= 3 else 0.04):
+        return (sr, ("restart",), "restart")
     r = rng.random()
 
     def rx(lab, mt, body, seq="auto", pd=False, defect="none"):
@@ -301,21 +452,26 @@ def gen_event(rng, a, now, own=True, d9=True):
     return rx("Logon-again", "A", [(98, "0"), (108, "30")])
 
 
-def gen_history(rng, impl, max_len, own=True, d9=True, stats=None):
+def gen_history(rng, rig, max_len, own=True, d9=True, stats=None):
     """generate one history while running it on the implementation (the generator looks at the
     implementation's abstract state only to choose plausible next events)"""
+    impl = rig.impl
     start = fresh(rng)
-    impl.load(start)
+    rig.load(start)
     now, a, steps = S.T0, start, []
     for _ in range(rng.randint(max(1, max_len // 2), max_len)):
         now += rng.choice([0, 125, 250, 1000, 1000, 3000, a.hb * 1000, a.hb * 2000 + 125])
-        sr, ev, lab = gen_event(rng, a, now, own, d9)
-        del impl.eff[:]
-        impl.apply(sr, ev)
+        sr, ev, lab = gen_event(rng, a, now, own, d9, rig.cfg["restart"])
+        before = impl.dump() if ev[0] == "restart" else None
+        rig.apply(sr, ev)
         eff, post = impl.effects(), impl.dump()
         if stats is not None:
-            S.note_stats(stats, a, ev, eff, lab)
-        steps.append((sr, ev, lab, eff, post))
+            if ev[0] == "restart":
+                stats.setdefault("event", {})
+                stats["event"]["restart"] = stats["event"].get("restart", 0) + 1
+            else:
+                S.note_stats(stats, a, ev, eff, lab)
+        steps.append((sr, ev, lab, eff, post, before))
         a = S.parse_conn_tokens(post)
     return start, steps
 
@@ -332,14 +488,19 @@ def ev_tuple(e):
 
 
 def compare_history_list(hist, drv=None):
-    """hist: [(start, [(sr, ev, lab, eff, post)])]; lock-step comparison with the model"""
+    """hist: [(cfg, start, [(sr, ev, lab, eff, post, before)])]; lock-step comparison with the model.
+    A `restart` step is compared with `Conn.create` over the journal as it was before the restart
+    (`created_tokens`), and the model continues from that connection."""
     drv = drv or C.Driver()
     lines, index = [], []
-    for hi, (start, steps) in enumerate(hist):
+    for hi, (cfg, start, steps) in enumerate(hist):
         lines.append("sess.load " + start.tokens())
         index.append(None)
         for si, st in enumerate(steps):
-            lines.append(f"sess.ev {st[0]} {S.event_tokens(st[1])}")
+            if st[1][0] == "restart":
+                lines.append("sess.load " + created_tokens(st[5]))
+            else:
+                lines.append(f"sess.ev {st[0]} {S.event_tokens(st[1])}")
             index.append((hi, si))
     model = drv.batch(lines) if lines else []
     dis, bad, events, seen = [], set(), 0, set()
@@ -351,29 +512,38 @@ def compare_history_list(hist, drv=None):
         events += 1
         if hi in bad:
             continue
-        sr, ev, lab, eff, post = hist[hi][1][si]
+        sr, ev, lab, eff, post, before = hist[hi][2][si]
+        if ev[0] == "restart":
+            assert ml == "ok", ml
+            ml, il = "- # " + created_tokens(before), S.reply(eff, post)
+        else:
+            il = S.reply(eff, post)
         if eff:
             seen.add((post.split(" ")[0], lab, tuple(e.split("=")[0] for e in eff)))
-        il = S.reply(eff, post)
         if il != ml:
             bad.add(hi)
-            start, steps = hist[hi]
-            dis.append({"input": {"start": start.tokens(), "events": [[s[0], ev_json(s[1])] for s in steps[: si + 1]],
+            cfg, start, steps = hist[hi]
+            dis.append({"input": {"cfg": cfg, "start": start.tokens(),
+                                  "events": [[s[0], ev_json(s[1])] for s in steps[: si + 1]],
                                   "label": lab, "step": si}, "model": ml, "impl": il})
     return events, dis, seen
 
 
 def _worker(args):
-    seed, n_hist, max_len = args
+    seed, n_hist, max_len, cfg = args
     rng = random.Random(seed)
-    impl = S.Impl()
+    rig = Rig(cfg)
     stats = {}
-    hist = [gen_history(rng, impl, max_len, True, True, stats) for _ in range(n_hist)]
+    try:
+        hist = [(cfg,) + gen_history(rng, rig, max_len, True, True, stats) for _ in range(n_hist)]
+    finally:
+        rig.close()
     events, dis, seen = compare_history_list(hist)
     sample = None
     if hist:
-        st, steps = hist[0]
-        sample = {"start": st.tokens(), "events": [[s[0], S.event_tokens(s[1])] for s in steps[:6]], "post": steps[min(5, len(steps) - 1)][4]}
+        _, st, steps = hist[0]
+        sample = {"cfg": cfg, "start": st.tokens(), "events": [[s[0], ev_json(s[1])] for s in steps[:6]],
+                  "post": steps[min(5, len(steps) - 1)][4]}
     return events, dis, stats, list(seen), sample
 
 
@@ -396,44 +566,68 @@ def load_corpus():
     return out
 
 
-def run_fixed(impl, start, events, stats=None):
+def run_fixed(rig, start, events, stats=None):
     """run a fixed history [(sr, ev)] on the implementation"""
-    impl.load(start)
+    impl = rig.impl
+    rig.load(start)
     a, steps = start, []
     for sr, ev in events:
-        del impl.eff[:]
-        impl.apply(sr, ev)
+        before = impl.dump() if ev[0] == "restart" else None
+        rig.apply(sr, ev)
         eff, post = impl.effects(), impl.dump()
-        if stats is not None:
+        if stats is not None and ev[0] != "restart":
             S.note_stats(stats, a, ev, eff, ev[0])
-        steps.append((sr, ev, ev[0], eff, post))
+        steps.append((sr, ev, ev[0], eff, post, before))
         a = S.parse_conn_tokens(post)
     return start, steps
 
 
+_RIGS = {}
+
+
+def rig_for(cfg):
+    k = json.dumps(cfg, sort_keys=True)
+    if k not in _RIGS:
+        _RIGS[k] = Rig(cfg)
+    return _RIGS[k]
+
+
+def close_rigs():
+    for r in reversed(list(_RIGS.values())):   # LIFO: each Impl restores what it found when it was created
+        r.close()
+    _RIGS.clear()
+
+
 def correspondence(ctx):
-    impl = S.Impl()
     drv = C.Driver()
     stats, dis, seen = {}, [], set()
     # corpus first
-    chist = [run_fixed(impl, S.parse_conn_tokens(d["start"]), [(sr, ev_tuple(e)) for sr, e in d["events"]], stats)
-             for d in load_corpus()]
+    chist = []
+    for d in load_corpus():
+        cfg = d.get("cfg", CLASSIC)
+        chist.append((cfg,) + run_fixed(rig_for(cfg), S.parse_conn_tokens(d["start"]),
+                                        [(sr, ev_tuple(e)) for sr, e in d["events"]], stats))
+    close_rigs()
+    impl = S.Impl()
     ce, cd, cs = compare_history_list(chist, drv)
     dis += cd
     seen |= cs
     # (a) single-step slice
     cases = list(single_step_slice(ctx.rng))
+    if ctx.tier != "thorough":
+        # quick tier: every second step of the table (alternating with the seed); thorough: the whole table
+        cases = [c for i, c in enumerate(cases) if i % 2 == ctx.seed % 2]
     n1, d1, res = S.compare_steps(impl, cases, drv, stats)
     dis += d1
     for case, (eff, post) in zip(cases, res):
         if eff:
             seen.add((str(case[0].state), case[3], tuple(e.split("=")[0] for e in eff)))
     # (b) histories, in worker processes
-    n_hist, max_len = ctx.n(2000, 20000), ctx.n(30, 80)
+    n_hist, max_len = ctx.n(900, 20000), ctx.n(30, 80)
     workers = min(8, os.cpu_count() or 1)
-    chunks = ctx.n(16, 64)
+    chunks = ctx.n(15, 65)
     per = (n_hist + chunks - 1) // chunks
-    jobs = [(ctx.rng.getrandbits(48), per, max_len) for _ in range(chunks)]
+    jobs = [(ctx.rng.getrandbits(48), per, max_len, CONFIGS[i % len(CONFIGS)]) for i in range(chunks)]
     events, sample = 0, None
     impl.close()
     with ProcessPoolExecutor(max_workers=workers) as ex:
@@ -456,6 +650,8 @@ def correspondence(ctx):
         "samples": samples,
         "exhaustive": False,
         "distribution": {"corpus_histories": len(chist), "single_step_cases": n1, "histories": per * chunks,
+                         "history_configurations": {json.dumps(c, sort_keys=True): sum(1 for j in jobs if j[3] == c) * per
+                                                    for c in CONFIGS},
                          "history_events": events, "max_history_length": max_len, **stats},
         "disagreements": dis,
     }
@@ -499,29 +695,47 @@ def declines(sr, n):
     return n in {int(x) for x in sr[1:].split(",")}
 
 
-def oracle_history(impl, start, events):
-    """run [(sr, ev)] on the real connection and check the property clauses; returns failures"""
+def oracle_history(rig, start, events):
+    """run [(sr, ev)] on the real connection (configured per rig.cfg) and check the property clauses;
+    returns failures"""
     fails = []
+    impl = rig.impl
 
     def fail(sig, what, step, expected=None, observed=None):
         fails.append({"signature": sig, "what": what,
-                      "input": {"start": start.tokens(), "events": [[s, ev_json(e)] for s, e in events[: step + 1]]},
+                      "input": {"cfg": rig.cfg, "start": start.tokens(),
+                                "events": [[s, ev_json(e)] for s, e in events[: step + 1]]},
                       "expected": expected, "observed": observed})
 
-    impl.load(start)
-    conn, jr, MD = impl.conn, impl.journal, impl.MD
-    sess = conn._session
+    rig.load(start)
+    MD = impl.MD
+    jr, sess = impl.journal, impl.conn._session
     key = (sess.target_comp_id, sess.sender_comp_id)
     expected_next = jr.sessions()[key].next_num_out
     if expected_next != sess.next_num_out:
         return fails  # not a state a fresh / consistent connection can be in
+    others0 = rig.snapshot_others()
     sent = {}          # n -> (bytes, step)
     own_seen = None    # step of an application send that chose its own number
     resends = []       # (step, begin, end0, sr) of ResendRequests received
     for i, (sr, ev) in enumerate(events):
+        if ev[0] == "restart":
+            # numbering continues from the stored counter of THIS session, whatever else the journal holds
+            stored_before = jr.sessions()[key].next_num_out
+            rig.apply(sr, ev)
+            jr, sess = impl.journal, impl.conn._session
+            if sess.next_num_out != stored_before:
+                fail("C05-restart-counter", "a reloaded session does not continue from its own stored outbound counter",
+                     i, stored_before, sess.next_num_out)
+            if jr.sessions()[key].next_num_out != stored_before:
+                fail("C05-restart-counter", "reloading the session changed its stored outbound counter", i,
+                     stored_before, jr.sessions()[key].next_num_out)
+            if rig.snapshot_others() != others0:
+                fail("C05-other-session-touched", "rows / counters of another session of the shared journal changed", i)
+                others0 = rig.snapshot_others()
+            continue
         before = impl.dump()
-        del impl.eff[:]
-        impl.apply(sr, ev)
+        rig.apply(sr, ev)
         writes = [e[1] for e in impl.eff if e[0] == "W"]
         raised = [e[1] for e in impl.eff if e[0] in ("R", "C")]
         frames = [fields(b) for b in writes]
@@ -587,7 +801,7 @@ def oracle_history(impl, start, events):
                      "new message not numbered last + 1", i, expected_next, n)
             expected_next = n + 1
             sent[n] = (raw, i)
-            if fget(fs, 49) != sess.sender_comp_id or fget(fs, 56) != sess.target_comp_id:
+            if fget(fs, 49) != key[1] or fget(fs, 56) != key[0]:
                 fail("C05-compids", "frame does not carry the session's CompIDs", i)
             if not serviced:
                 rb = jr.recover_msg(sess, MD.OUTBOUND, n)
@@ -603,7 +817,10 @@ def oracle_history(impl, start, events):
         if stored != sess.next_num_out:
             fail(cls or "C05-stored-counter", "stored next-outbound differs from the session counter", i,
                  sess.next_num_out, stored)
-        for seq_no, raw, d, _k in jr.get_all_msgs(direction=MD.OUTBOUND):
+        if rig.snapshot_others() != others0:
+            fail("C05-other-session-touched", "rows / counters of another session of the shared journal changed", i)
+            others0 = rig.snapshot_others()
+        for seq_no, raw, d, _k in jr.get_all_msgs(sessions=[sess], direction=MD.OUTBOUND):
             try:
                 ok = jr.find_seq_no(raw) == seq_no and seq_no < sess.next_num_out
             except Exception:
@@ -652,44 +869,50 @@ def witness_own():
 
 
 def oracle(ctx, disagreements, broken):
-    impl = S.Impl()
     failures, n_hist, n_ev = [], 0, 0
+    per_cfg = {}
     try:
-        # 1. witnesses of the open findings, corpus
+        # 1. witnesses of the open / repaired findings, corpus
         for a, ev in (witness_d9(), witness_own()):
-            failures += oracle_history(impl, a, ev)
+            failures += oracle_history(rig_for(CLASSIC), a, ev)
             n_hist += 1
         for d in load_corpus():
-            failures += oracle_history(impl, S.parse_conn_tokens(d["start"]), [(sr, ev_tuple(e)) for sr, e in d["events"]])
+            failures += oracle_history(rig_for(d.get("cfg", CLASSIC)), S.parse_conn_tokens(d["start"]),
+                                       [(sr, ev_tuple(e)) for sr, e in d["events"]])
             n_hist += 1
         # 2. the disagreeing inputs first
         for dg in disagreements[:200]:
             inp = dg["input"]
             if "events" in inp:
-                failures += oracle_history(impl, S.parse_conn_tokens(inp["start"]), [(sr, ev_tuple(e)) for sr, e in inp["events"]])
+                failures += oracle_history(rig_for(inp.get("cfg", CLASSIC)), S.parse_conn_tokens(inp["start"]),
+                                           [(sr, ev_tuple(e)) for sr, e in inp["events"]])
             elif "conn" in inp:
                 a = S.parse_conn_tokens(inp["conn"])
                 if a.stored_out + 1 == a.next_out and all(r[0] < a.next_out for r in a.out_rows):
                     ev = parse_event_tokens(inp["event"])
-                    failures += oracle_history(impl, a, [(inp["sr"], ev)])
+                    failures += oracle_history(rig_for(CLASSIC), a, [(inp["sr"], ev)])
             n_hist += 1
-        # 3. generated histories: clean stream (no own-number sends: any failure is new; ResendRequests of
-        #    every shape incl. bounded / inverted ranges), and a stream with own-number sends (failures must
-        #    carry the known signature)
-        budget = ctx.n(400, 1500) * (4 if broken else 1)
+        # 3. generated histories over every configuration (journal kind x protocol class x shared journal x
+        #    restarts): clean stream (no own-number sends: any failure is new; ResendRequests of every shape),
+        #    and a stream with own-number sends (failures must carry the known signature)
+        budget = ctx.n(300, 1500) * (4 if broken else 1)
         max_len = ctx.n(30, 60)
         for k in range(budget):
             own = (k % 4 == 3)
-            start, steps = gen_history(ctx.rng, impl, max_len, own, True)
+            cfg = CONFIGS[(k // 4) % len(CONFIGS)]
+            rig = rig_for(cfg)
+            start, steps = gen_history(ctx.rng, rig, max_len, own, True)
             evs = [(s[0], s[1]) for s in steps]
-            failures += oracle_history(impl, start, evs)
+            failures += oracle_history(rig, start, evs)
             n_hist += 1
             n_ev += len(evs)
+            ck = f"{cfg['journal']}/{cfg['proto']}/{'shared' if cfg['others'] else 'alone'}/{'restarts' if cfg['restart'] else 'no-restart'}"
+            per_cfg[ck] = per_cfg.get(ck, 0) + 1
     finally:
-        impl.close()
+        close_rigs()
     # one representative (the shortest input) per signature is enough for a replay
     failures.sort(key=lambda f: len(f["input"]["events"]))
-    ctx.oracle_stats = {"histories": n_hist, "events": n_ev, "failures": len(failures),
+    ctx.oracle_stats = {"histories": n_hist, "events": n_ev, "failures": len(failures), "configurations": per_cfg,
                         "by_signature": {s: sum(1 for f in failures if f["signature"] == s) for s in {f["signature"] for f in failures}}}
     return failures
 
@@ -709,12 +932,12 @@ def parse_event_tokens(text):
 
 
 def replay(ctx, rp):
-    impl = S.Impl()
+    inp = rp["input"]
     try:
-        inp = rp["input"]
-        fs = oracle_history(impl, S.parse_conn_tokens(inp["start"]), [(sr, ev_tuple(e)) for sr, e in inp["events"]])
+        fs = oracle_history(rig_for(inp.get("cfg", CLASSIC)), S.parse_conn_tokens(inp["start"]),
+                            [(sr, ev_tuple(e)) for sr, e in inp["events"]])
     finally:
-        impl.close()
+        close_rigs()
     sigs = sorted({f["signature"] for f in fs})
-    print("replay:", len(inp["events"]), "events ->", sigs)
+    print("replay:", inp.get("cfg", CLASSIC), len(inp["events"]), "events ->", sigs)
     return rp["signature"] in sigs
